@@ -16,6 +16,28 @@ def harnesses():
                          inst="Uint<%d,%d>" % (b, nlimbs(b)), role="c13::pow_narrow." + fn,
                          domain="every (base, exponent) pair of the width; real multipliers", free_bits=2 * b, fns=[fn],
                          covers_required=(["overflows"] if b >= 2 else []) + ["zero-to-zero"]))
+    MULSPEC = [("ruint::Uint::overflowing_mul", "stubs::overflowing_mul_spec1"),
+               ("ruint::Uint::wrapping_mul", "stubs::wrapping_mul_spec1")]
+    FLT = [("f64::exp2", "stubs::exp2_exact"), ("f64::log2", "stubs::log2_table")]
+    for b in [2, 3, 4, 7, 8]:
+        for w, fn in enumerate(names):
+            out.append(H("c13_pow_spec_%d_%s" % (b, fn), "C13", "c13::pow_narrow::<%d,%d>" % (b, w), unwind=b + 3,
+                         tier="quick" if b in (3, 8) else "thorough", timeout=1800, stubs=MULSPEC,
+                         inst="Uint<%d,%d>" % (b, nlimbs(b)), role="c13::pow_spec." + fn,
+                         domain="every (base, exponent) pair of the width; compositional: overflowing_mul/wrapping_mul replaced "
+                                "by their specification (decided against the real multipliers in C02 narrow_%d)" % b,
+                         free_bits=2 * b, fns=[fn], covers_required=["overflows", "zero-to-zero"]))
+    for b in [2, 3, 4, 7, 8]:
+        for w, fn in enumerate(["checked_log", "log", "log10"]):
+            if w == 2 and b < 4:
+                continue
+            out.append(H("c13_log_narrow_%d_%s" % (b, fn), "C13", "c13::log_narrow::<%d,%d>" % (b, w), unwind=max(b + 3, 11),
+                         tier="quick" if b in (4,) else "thorough", timeout=3600, stubs=[FMT] + MULSPEC + FLT,
+                         inst="Uint<%d,1>" % b, role="c13::log_narrow." + fn,
+                         domain="every (value, base) pair of the width; compositional: multipliers replaced by their specification, "
+                                "f64::exp2/log2 by exact models on the integer arguments that occur (any other argument fails the harness)",
+                         free_bits=2 * b, fns=[fn, "approx_log2", "TryFrom<f64>", "checked_pow"],
+                         covers_required=(["at-max"] if w != 2 else [])))
     for b in [1, 2, 3, 4, 7, 8, 64, 65, 128, 250]:
         l = nlimbs(b)
         inst = "Uint<%d,%d>" % (b, l)
